@@ -1,10 +1,13 @@
 package main
 
 import (
+	"fmt"
+	"os"
 	"path/filepath"
 	"sort"
 	"strings"
 	"sync"
+	"time"
 
 	"golang.org/x/tools/go/ssa"
 )
@@ -65,7 +68,11 @@ func (e *Engine) verifyAll(fns []*ssa.Function, opts *VCOpts, post func(fr *Fram
 					rs[i] = &FnResult{Fn: fnKey(fn), Unsupported: []string{"generator panic: " + toString(r)}}
 				}
 			}()
+			t0 := time.Now()
 			rs[i] = e.verifyFn(fn, opts, post)
+			if os.Getenv("GOVC_TRACE") != "" {
+				fmt.Fprintf(os.Stderr, "gen %-60s %6.2fs obls=%d\n", fnKey(fn), time.Since(t0).Seconds(), len(rs[i].Obls))
+			}
 		}()
 	}
 	wg.Wait()
